@@ -304,6 +304,8 @@ def c20_symbolic(cfg):
             "zero_h0": lambda: block_diagonalize([np.zeros((3, 3)), H1], subspace_indices=[0, 1, 1]),
             "mask_not_ndarray": lambda: block_diagonalize([H0, H1], subspace_indices=[0, 1, 1], fully_diagonalize={1: [[0, 1], [1, 0]]}),
             "wrong_type": lambda: block_diagonalize("not a hamiltonian"),
+            "custom_solver_single_block": lambda: block_diagonalize([H0, H1], solve_sylvester=lambda Y, index: Y),
+            "custom_solver_single_block_nonhermitian": lambda: block_diagonalize([H0, symc.SymArray(symc.general("g_", N))], solve_sylvester=lambda Y, index: Y, hermitian=False),
         }
         _expect_raises(rec, which, sig + ":" + which, calls[which], must=True)
         return rec
@@ -468,7 +470,8 @@ def configs(tier):
         for how in ("real_asym", "complex_diag"):
             S(kind="nonhermitian_symbolic_term", hermitian=True, order=order, how=how)
     for which in ("custom_solver_and_fully_diagonalize", "eigenvectors_and_indices", "pairs_in_hermitian_mode", "mask_array_with_multiple_blocks",
-                  "implicit_symbolic", "legacy_solver_nonhermitian", "blocks_and_subspaces", "zero_h0", "mask_not_ndarray", "wrong_type"):
+                  "implicit_symbolic", "legacy_solver_nonhermitian", "blocks_and_subspaces", "zero_h0", "mask_not_ndarray", "wrong_type",
+                  "custom_solver_single_block", "custom_solver_single_block_nonhermitian"):
         S(kind="exclusive_options", which=which)
     for herm in (True, False):
         for fmt in ("dense", "sparse"):
